@@ -8,6 +8,7 @@
 #include <vector>
 #include <list>
 #include <cstdio>
+#include <cmath>
 #include <unistd.h>
 #include <fcntl.h>
 #include <gmp.h>
@@ -33,6 +34,18 @@ static Z zpow(const Z& p, uint64_t k) { Z r(1); for (uint64_t i = 0; i < k; ++i)
 // the library prints diagnostics ("... is not a quadratic residue ...") on std::cerr: silence fd 2
 static void quiet_stderr() { int fd = open("/dev/null", O_WRONLY); if (fd >= 0) { dup2(fd, 2); close(fd); } }
 
+// Every random choice of the anchored code comes from Integer's global GMP state (IntegerDom::random ignores the
+// generator object).  It is re-seeded from the text of the case before every call, so a single line replays
+// identically, and the draws the code consumed first can be re-produced afterwards (the model takes them as input).
+static uint64_t line_seed(const std::string& s) { uint64_t h = 1469598103934665603ULL; for (size_t i = 0; i < s.size(); ++i) { h ^= (unsigned char)s[i]; h *= 1099511628211ULL; } return h; }
+// the draws  Rep::nonzerorandom(d, l), l = ceil(logtwo(p) - 1)  of sqrootmodprime (Mueller / Tonelli-Shanks branches)
+static void print_draws(std::ostream& o, uint64_t seed, const Z& p, int n) {
+    Integer::seeding(seed);
+    size_t l = (size_t) ceil(logtwo(p) - 1);
+    o << " ;";
+    for (int i = 0; i < n; ++i) { Z d; Z::nonzerorandom(d, l); o << " " << d; }
+}
+
 int main() {
     quiet_stderr();
     std::ios::sync_with_stdio(false);
@@ -48,6 +61,14 @@ int main() {
         std::vector<Z> a; { std::string t; while (in >> t) a.push_back(Z(t.c_str())); }
         std::ostringstream o;
         Z r, r2, r3;
+        // re-seeding costs ~0.6 ms (Mersenne twister): done only for the calls that can reach a random choice
+        // (for the sqrt-mod-prime family: only when p = 1 mod 8, the Mueller / Tonelli-Shanks classes)
+        const uint64_t seed = line_seed(line);
+        bool pdraws = false;
+        if (op == "sqrootmodprime" || op == "sqrootmodprimepower" || op == "sqrootlinear") pdraws = a.size() > 1 && ((a[1] & 7U) == 1U);
+        bool rnd = pdraws || op == "sqrootmod" || op == "brillhart" || op.compare(0, 12, "sumofsquares") == 0
+                   || op.compare(0, 9, "prim_root") == 0 || op.compare(0, 8, "probable") == 0 || op == "prim_elem" || op == "prim_inv";
+        if (rnd) Integer::seeding(seed);
         // ------------------------------------------------------------ numtheo
         if (op == "phi") { NT.phi(r, a[0]); o << r; }
         else if (op == "phiL.list") { std::list<Z> L(a.begin() + 1, a.end()); NT.phi(r, L, a[0]); o << r; }
@@ -89,10 +110,10 @@ int main() {
         else if (op == "lambda_inv_primpow") { NT.lambda_inv_primpow(r, a[0], (uint64_t)a[1]); o << r; }
         // ------------------------------------------------------------ square roots
         else if (op == "sqrootmod") { SQ.sqrootmod(r, a[0], a[1]); o << r; }
-        else if (op == "sqrootmodprime") { SQ.sqrootmodprime(r, a[0], a[1]); o << r; }
-        else if (op == "sqrootmodprimepower") { Z pk = zpow(a[1], (uint64_t)a[2]); SQ.sqrootmodprimepower(r, a[0], a[1], (uint64_t)a[2], pk); o << r; }
+        else if (op == "sqrootmodprime") { SQ.sqrootmodprime(r, a[0], a[1]); o << r; if (pdraws) print_draws(o, seed, a[1], 40); }
+        else if (op == "sqrootmodprimepower") { Z pk = zpow(a[1], (uint64_t)a[2]); SQ.sqrootmodprimepower(r, a[0], a[1], (uint64_t)a[2], pk); o << r; if (pdraws) print_draws(o, seed, a[1], 40); }
         else if (op == "sqrootmodpoweroftwo") { Z pk = zpow(Z(2), (uint64_t)a[1]); SQ.sqrootmodpoweroftwo(r, a[0], (uint64_t)a[1], pk); o << r; }
-        else if (op == "sqrootlinear") { SQ.linear(r, a[0], a[1], (uint64_t)a[2]); o << r; }
+        else if (op == "sqrootlinear") { SQ.linear(r, a[0], a[1], (uint64_t)a[2]); o << r; if (pdraws) print_draws(o, seed, a[1], 40); }
         else if (op == "sqroottwolinear") { SQ.twolinear(r, a[0], (uint64_t)a[1]); o << r; }
         else if (op == "sqroothensellift") { r = a[0]; Z pk = zpow(a[2], (uint64_t)a[3]); SQ.hensel(r, a[1], a[2], (uint64_t)a[3], pk); o << r; }
         else if (op == "sqrootonemorelift") { r = a[0]; Z pk = zpow(a[2], (uint64_t)a[3]); SQ.onemore(r, a[1], a[2], (uint64_t)a[3], pk); o << r; }
